@@ -90,6 +90,7 @@ class Func:
         self.direct = set()       # direct writes: ("self", what) | ("param", p, what) | ("unknown", what)
         self.calls = []           # (callee name, kind, receiver class, [arg classes], lineno)
         self.writes = set()       # fixpoint result
+        self.aliases = set()      # attributes of freshly allocated objects bound to state reachable from self / a parameter
         self.ret = IMM            # class of the returned value relative to self/params
 
 
@@ -122,7 +123,7 @@ class Analysis:
         # two global rounds: the second one uses the classes of the returned values computed by the first
         for rnd in range(2):
             for fu in self.funcs:
-                fu.direct = set(); fu.calls = []
+                fu.direct = set(); fu.calls = []; fu.aliases = set()
                 prev = fu.ret
                 fu.ret = IMM
                 Intra(self, fu).run()
@@ -410,6 +411,8 @@ class Intra(ast.NodeVisitor):
             return
         if isinstance(tgt, ast.Attribute):
             base = self.cls(tgt.value)
+            if base == FRESH and (valc == SELF or (isinstance(valc, tuple) and valc[0] in ("state", "param"))):
+                self.fu.aliases.add("%s:.%s = <%s>" % (self.fu.qual, tgt.attr, ast.unparse(node.value)[:60] if hasattr(node, "value") else "?"))
             if tgt.attr in self.A.setters and base not in (FRESH, IMM):
                 self.fu.calls.append((tgt.attr, "setter", base, [valc], tgt.lineno))
             self.write_to(base, "." + tgt.attr, node)
